@@ -19,6 +19,9 @@ func (x *Exec) libCall(st *State, q string, recv *Value, args []*Value, sig *typ
 	case strings.HasPrefix(q, "github.com/jimsnab/go-lane."):
 		// logging: effect-free on emulator state
 		return x.freshResults(st, sig, "lane"), true
+	case q == "time.Sleep":
+		// no effect on program state
+		return nil, true
 	case q == "error.Error":
 		// message text of an error value: effect-free
 		r := x.b.Fresh("errtext", StrSort)
@@ -210,6 +213,10 @@ func (x *Exec) libCall(st *State, q string, recv *Value, args []*Value, sig *typ
 						nv := x.iteV(eq, x.coerce(st, args[2], cur.T), cur)
 						x.assignTo(st, sel, nv)
 						return []*Value{scalarV(types.Typ[types.Bool], eq)}, true
+					case strings.HasPrefix(name, "Swap"):
+						cur := x.eval(st, sel)
+						x.assignTo(st, sel, x.coerce(st, args[1], cur.T))
+						return []*Value{cur}, true
 					case strings.HasPrefix(name, "Add"):
 						cur := x.eval(st, sel)
 						nv := x.binary(st, token.ADD, cur, args[1], cur.T, at)
